@@ -115,6 +115,14 @@ func checkC15(c *Ctx) error {
 			k++
 		}
 	}
+	// curated: a recursive reference behind a second rule in prefix position — the second rule's
+	// body ranges over every shape built from terminals, so every way of being (or not being)
+	// nullable is tried as the prefix: Ra <- Rb Ra, Ra <- op(Rb) Ra, Ra <- Rb op(Ra)
+	for _, r0 := range []int{221, 421, 521} {
+		for _, r1 := range []int{0, 100, 600, 200, 300, 400, 500} {
+			add("Diagnostics", 2, r0, r1, 0, 1)
+		}
+	}
 	n3 := c15Bodies(3)
 	for k, tries := 0, 0; k < n3count && tries < 100000; tries++ {
 		x, y, z := n3[rng.Intn(len(n3))], n3[rng.Intn(len(n3))], n3[rng.Intn(len(n3))]
@@ -138,7 +146,7 @@ func checkC15(c *Ctx) error {
 	res := RunJobs(l, jobs, c.Workers, cfg, c.Deadline)
 	c.Programs = len(jobs)
 	c.Bounds["skeletons"] = map[string]any{"rules": "1..3", "body_shapes": "leaf, unary(leaf), unary(unary(leaf)), list(leaf,leaf), unary(list), list(unary,leaf), list(leaf,unary)",
-		"leaf_wiring": "terminal | reference to each defined rule | reference to an undefined name", "one_rule": "all bodies", "two_rules": "all first bodies x seeded sample of second", "three_rules": "seeded sample"}
+		"leaf_wiring": "terminal | reference to each defined rule | reference to an undefined name", "one_rule": "all bodies", "two_rules": "all first bodies x seeded sample of second; plus Ra <- Rb Ra / op(Rb) Ra / Rb op(Ra) with every terminal-only body for Rb", "three_rules": "seeded sample"}
 	c.Bounds["symbolic"] = "operator labels: unary in {? * + & ! <>}, list in {/ sequence}, terminal in {dot, character, empty, action, predicate}; Strict"
 	c.Bounds["outside"] = "larger grammars; deeper nesting; -switch/-inline (analysis is independent of them); wording beyond the three quoted phrases"
 	c.Assumptions = append(c.Assumptions, "A-SSA", "A-SMT",
